@@ -140,6 +140,13 @@ fn_names_that_contradict_ordered_windowed_situation = {
 }
 
 
+# what may be computed over a window: the aggregations, the order dependent functions, ranks and group numbers
+fn_names_of_window_functions = fn_names_that_contradict_ordered_windowed_situation.union(
+    fn_names_that_imply_ordered_windowed_situation,
+    {"rank", "ngroup", "_ngroup", "count", "_count"},
+)
+
+
 class PreTerm(abc.ABC):
     """
     abstract base class, without combination ability
